@@ -49,3 +49,21 @@ package config
 
 //@ contract config.GetKeyFields props C28
 //@   modifies nothing
+
+//@ contract config.ConfigHashMetrics props C28
+//@   modifies nothing
+
+//@ contract config.CollectionConfig.GetWorkerCount props C28
+//@   ensures[at-least-one-worker] result >= 1
+//@   ensures[configured-count] c.WorkerCount > 0 ==> result == c.WorkerCount
+//@   ensures[negative-count-is-one] c.WorkerCount < 0 ==> result == 1
+//@   ensures[default-is-gomaxprocs] c.WorkerCount == 0 ==> result <= 1<<20
+//@   modifies nothing
+//@ contract config.CollectionConfig.GetIncomingQueueSizePerWorker props C28
+//@   arith wraps
+//@   ensures[nonnegative-if-configured-so] c.IncomingQueueSize >= 0 && c.IncomingQueueSize < 1<<62 && c.WorkerCount < 1<<62 ==> result >= 0
+//@   modifies nothing
+//@ contract config.CollectionConfig.GetPeerQueueSizePerWorker props C28
+//@   arith wraps
+//@   ensures[nonnegative-if-configured-so] c.PeerQueueSize >= 0 && c.PeerQueueSize < 1<<62 && c.WorkerCount < 1<<62 ==> result >= 0
+//@   modifies nothing
